@@ -805,3 +805,24 @@ Proof.
     + exact Hin.
     + discriminate.
 Qed.
+
+(* ================================================================== *)
+(* the id tag (convert.rs, parse_id_tag): only the canonical decimal rendering of a u64 after the
+   prefix is a tag, so a name determines and IS determined by the number it carries *)
+Lemma strip_prefix_sound p : forall s r, strip_prefix p s = Some r -> s = p +++ r.
+Proof.
+  induction p as [|a p IH]; intros s r H; cbn [strip_prefix] in H; [inversion H; reflexivity|].
+  destruct s as [|b s]; [discriminate|]. destruct (Ascii.eqb a b) eqn:E; [|discriminate].
+  apply Ascii.eqb_eq in E. subst b. change (String a p +++ r) with (String a (p +++ r)).
+  f_equal. apply IH. exact H.
+Qed.
+Theorem parse_id_tag_canonical prefix x i : parse_id_tag prefix x = Some i -> x = prefix +++ print_N i.
+Proof.
+  unfold parse_id_tag. destruct (strip_prefix prefix x) as [r|] eqn:E; [|discriminate].
+  apply strip_prefix_sound in E. destruct (read_u64 r) as [n|]; [|discriminate].
+  destruct (String.eqb (print_N n) r) eqn:B; [|discriminate].
+  intro H. inversion H; subst n. apply String.eqb_eq in B. subst r. exact E.
+Qed.
+Theorem parse_id_tag_inj prefix x y i :
+  parse_id_tag prefix x = Some i -> parse_id_tag prefix y = Some i -> x = y.
+Proof. intros Hx Hy. apply parse_id_tag_canonical in Hx, Hy. congruence. Qed.
